@@ -1058,3 +1058,14 @@ Proof. vm_compute. reflexivity. Qed.
    before it *)
 Lemma run_sop_refresh s : run_sop SRefresh s = clear_log s.
 Proof. reflexivity. Qed.
+
+(* ------------------------------------------------------------------ *)
+(* 14. The tasks of a live environment stay in the roster              *)
+(* ------------------------------------------------------------------ *)
+
+Lemma roster_writes_fresh_in_source : roster_writes_fresh = true.
+Proof. vm_compute. reflexivity. Qed.
+
+(* the model's probe never fails: a model environment has all its tasks *)
+Lemma observe_rostered s : wo_rostered (observe s) = true.
+Proof. reflexivity. Qed.
